@@ -48,6 +48,17 @@ def head_type(t):
     t = re.sub(r"^&('[a-z_]+ )?(mut )?", "", t)
     if t.startswith("["):
         return "[T]"
+    if t.startswith("<"):
+        # associated type path: <Sink as TreeSink>::ElemName<'_>  ->  ElemName
+        d = 0
+        for j, ch in enumerate(t):
+            if ch == "<":
+                d += 1
+            elif ch == ">" and t[j - 1] != "-":
+                d -= 1
+                if d == 0:
+                    break
+        t = t[j + 1:].lstrip(":")
     t = re.sub(r"<.*$", "", t, flags=re.S)
     return t.split("::")[-1].strip()
 
@@ -276,9 +287,15 @@ class Program:
 
     def call_closure(self, m, clo, args):
         if isinstance(clo, Ptr):
-            f = self.closures.get(clo.load().name)
+            inner = clo.load()
+            if not isinstance(inner, Closure):
+                # &&closure, &fn-item, &dyn Fn: peel one reference
+                return self.call_closure(m, inner, args)
+            f = self.closures.get(inner.name)
             if f is None:
-                raise Unsupported("closure " + clo.load().name)
+                raise Unsupported("closure " + inner.name)
+            if not f.args[0][1].startswith("&"):
+                return m.run_fn(f, [inner] + list(args))
             return m.run_fn(f, [clo] + list(args))
         if isinstance(clo, Closure):
             f = self.closures.get(clo.name)
@@ -305,7 +322,7 @@ class Program:
             return False
         if c == "()":
             return UNIT
-        mm = re.match(r"^(-?\d+)_([a-z]+\d*)$", c)
+        mm = re.match(r"^(-?\d+)_([a-z]+\d*)(?: is .*)?$", c)
         if mm:
             from .interp import INT_W, mask
             return mask(int(mm.group(1)), INT_W[mm.group(2)])
@@ -322,7 +339,7 @@ class Program:
             ty = mm.group(2).strip()
             ent = ALLOCS.get(self.mir_path, {}).get(mm.group(1))
             m2 = re.match(r"^&\[(?:std::option::)?Option<char>; (\d+)\]$", ty)
-            if m2 and ent and ent[1] is not None and len(ent[1]) == 4 * int(m2.group(1)):
+            if m2 and ent and isinstance(ent[1], list) and len(ent[1]) == 4 * int(m2.group(1)):
                 key = ("alloc", mm.group(1))
                 if key not in self.statics:
                     b = ent[1]
@@ -332,6 +349,10 @@ class Program:
                         vals.append(some(w) if w <= 0x10FFFF else none())
                     self.statics[key] = Ptr([Arr(vals)], 0)
                 return self.statics[key]
+            if ty == "&&str" and ent and isinstance(ent[1], tuple) and ent[1][0] == "fatptr":
+                tgt = ALLOCS.get(self.mir_path, {}).get(ent[1][1])
+                if tgt and isinstance(tgt[1], list) and len(tgt[1]) >= ent[1][2]:
+                    return Ptr([Str([ord(ch) for ch in bytes(tgt[1][:ent[1][2]]).decode("utf-8")])], 0)
             return Opaque("static", (ty,))
         if c.startswith("ZeroSized: "):
             z = c[len("ZeroSized: "):].strip()
